@@ -5,6 +5,7 @@ import Verif.Gen.LexerFacts
 import Verif.Spec.Tokens
 import Verif.Proofs.Lexer
 import Verif.Proofs.LexerTotal
+import Verif.Proofs.LexerCover
 /-!
 # C37 — Lexing, parsing and checking are total and report in-range positions
 
@@ -81,6 +82,23 @@ theorem lex_total (limit : Nat) (inp : Bytes) :
 /-- non-vacuity: both outcomes occur — a normal stop in `rootState`, and the token limit -/
 example : (lex #[120, 32, 49]).stop = .done .root ∧ (lex #[120, 32, 49]).final.err = none := by decide
 example : (lexWith 2 #[120, 32, 49]).stop = .panicked ∧ (lexWith 2 #[120, 32, 49]).final.err = some .tokenLimit := by decide
+
+/-- `tokens_cover_input_partial`: when the lexer stops in `rootState` (not inside a block comment) without a
+    panic and no error token was emitted, the consuming tokens reach the last byte: the last one ends at
+    `len − 1` (with `tokens_contiguous`: the consuming tokens tile `[0, len)`).
+    `_partial`: the three hypotheses are needed — after an error token the lexer stops where it is, an
+    unterminated block comment ends the stream without a token for its content
+    (`coverage_witness_unterminated_comment`), and the token limit cuts the stream. -/
+theorem tokens_cover_input_partial (limit : Nat) (inp : Bytes)
+    (hstop : (lexWith limit inp).stop = .done .root) (herr : (lexWith limit inp).final.err = none)
+    (hno : ∀ t ∈ (lexWith limit inp).tokens, isError t = false) :
+    lastEnd (lexWith limit inp).final.toks = (inp.size : Int) - 1 :=
+  Verif.Proofs.LexerCover.lexWith_cover limit inp hstop herr hno
+
+/-- non-vacuity: `x + 1` -/
+example : (lex #[120, 32, 43, 32, 49]).stop = .done .root ∧ (lex #[120, 32, 43, 32, 49]).final.err = none ∧
+    (∀ t ∈ (lex #[120, 32, 43, 32, 49]).tokens, isError t = false) ∧
+    lastEnd (lex #[120, 32, 43, 32, 49]).final.toks = 4 := by decide
 
 /-- the building blocks of `lex_total`, per primitive: from any state that is inside the input
     (`startOffset ≤ endOffset ≤ len`, no error other than the token limit) the loops `acceptWhile f` (for every
